@@ -494,6 +494,27 @@ func genDeletion(t *rapid.T, h *history, batch int) (string, []string, *ref.DelW
 var delClassPriority = []string{"index-aliased-consistent", "index-too-large", "wrong-value", "stale-path", "corrupted-path", "dependent-prestate-path", "duplicate-old-value",
 	"post=pre", "post-random", "post+1", "padding-genuine-data", "padding", "duplicate-padding", "duplicate-current", "dependent-sequential", "already-empty-or-genuine", "genuine"}
 
+// genValidParamsOn draws a relation-valid parameter set on a GIVEN history (several requests can share a pre-state).
+func genValidParamsOn(t *rapid.T, h *history, mode string, batch int) *mParams {
+	m := &mParams{Mode: mode}
+	if mode == "insertion" {
+		w := genValidInsertion(t, h, batch)
+		if w == nil {
+			return nil
+		}
+		m.StartIndex, m.PreRoot, m.PostRoot, m.IdComms, m.MerkleProofs = low32(w.Start), w.Pre, w.Post, w.Ids, w.Paths
+		m.InputHash = ref.Mod(ref.HashInsertion(m.StartIndex, m.PreRoot, m.PostRoot, m.IdComms))
+		return m
+	}
+	w := genValidDeletion(t, h, batch)
+	m.PreRoot, m.PostRoot, m.IdComms, m.MerkleProofs = w.Pre, w.Post, w.Ids, w.Paths
+	for _, v := range w.Idx {
+		m.DeletionIndices = append(m.DeletionIndices, low32(v))
+	}
+	m.InputHash = ref.Mod(ref.HashDeletion(m.DeletionIndices, m.PreRoot, m.PostRoot))
+	return m
+}
+
 // genValidParams draws a relation-valid parameter set (with the reference
 // packing hash, reduced mod r) for the given mode and dimensions.
 func genValidParams(t *rapid.T, mode string, depth, batch int) *mParams {
